@@ -8,7 +8,7 @@
 (* records and replayed into the real interpreter.                         *)
 (*   env PROGS = ndjson file of programs (ASTs), one per line              *)
 (***************************************************************************)
-EXTENDS XrEval, Json, IOUtils
+EXTENDS XrScope, Json, IOUtils
 
 Progs == ndJsonDeserialize(IOEnv.PROGS)
 
@@ -69,6 +69,7 @@ Emit ==
     /\ pi <= Len(Progs) /\ HostDone
     /\ ~(di <= Len(P.decls) /\ ~Dead(st))
     /\ PrintT(<<"CASE", ToJson([id |-> P.id, taint |-> st.taint, viol |-> st.viol,
+                                static |-> IF P.hasfwd THEN StaticCheck(P.decls) ELSE "ok",
                                 binds |-> binds, out |-> st.out, calls |-> st.calls,
                                 maxdepth |-> st.maxdepth, maxrec |-> st.maxrec,
                                 maxsearch |-> st.maxsearch, runs |-> runs])>>)
